@@ -607,6 +607,22 @@ impl Program {
         }
     }
 
+    /// Returns whether the token we just consumed is an `ELSE` that directly
+    /// follows the single statement of a `THEN` clause, i.e. whether there's a
+    /// `THEN` earlier on the line with no colon between it and the `ELSE`.
+    pub fn is_else_of_then_clause(&self) -> bool {
+        let tokens = self.tokens();
+        let else_index = self.location.token_index.saturating_sub(1);
+        for token in tokens.iter().take(else_index).rev() {
+            match token {
+                Token::Then => return true,
+                Token::Colon => return false,
+                _ => {}
+            }
+        }
+        false
+    }
+
     /// Throw away any remaining tokens.
     pub fn discard_remaining_tokens(&mut self) {
         self.location.token_index = self.tokens().len();
